@@ -136,7 +136,7 @@ PROPS = {
     "C15": P(hunt=True, mc=TWO_MC, strict_ops=["t_mk", "t_val", "t_bin", "t_not", "t_info", "t_tolut"],
              rule="Lut->Esop for every function of n <= 3 (4 thorough) and structured/random functions to n = 10; operators on random cube lists",
              chunk_weight=6000),
-    "C16": P(hunt=True, mc=TWO_MC, strict_ops=["t_text", "t_alltext"],
+    "C16": P(hunt=True, mc=TWO_MC, strict_ops=["t_text", "t_alltext"], chunk_weight=4000,
              rule="printed text of all cubes / exclusive cubes over n <= 4, all forms of <= 2 (3) terms over n <= 3, random forms with "
              "two-digit variable indices; parsed and evaluated by the specification on every assignment"),
     "C17": P([], machine_ops=["nth_var", "flip", "swap", "swapadj", "fromcof", "setbit", "decomp"], rule="out-of-range indices/assignments, size-mismatched operands, wrong slice lengths on every index-taking "
